@@ -11,7 +11,7 @@ Nothing is ever committed to /repo.
 import json, os, re, shutil, subprocess, sys, time
 
 VERIF = "/verif"
-ENV = dict(os.environ, GOFLAGS="-mod=mod", GOPROXY="off", GOSUMDB="off", GOTOOLCHAIN="local")
+ENV = dict(os.environ, GOFLAGS="-mod=mod", GOPROXY="off", GOSUMDB="off", GOTOOLCHAIN="local", VERIF_NO_EVIDENCE="1")
 
 
 def sh(cmd, cwd=None, timeout=1800):
